@@ -7,3 +7,10 @@ package x509
 
 // ZVC02PurgeNameDuplicates exposes purgeNameDuplicates (the deterministic name list of the JSON view).
 func ZVC02PurgeNameDuplicates(names []string) []string { return purgeNameDuplicates(names) }
+
+// ZVC02JsonifySigAlgName exposes the name chosen by jsonifySignatureAlgorithm for a certificate whose
+// SignatureAlgorithm is a (JSON view of the signature algorithm).
+func ZVC02JsonifySigAlgName(a SignatureAlgorithm) string {
+	c := &Certificate{SignatureAlgorithm: a}
+	return c.jsonifySignatureAlgorithm().Name
+}
